@@ -181,7 +181,7 @@ fn run_case(ctx: &mut Ctx, idx: u64) {
 }
 
 pub fn run(ctx: &mut Ctx) {
-    let n_cases = ctx.pick(2500, 200000);
+    let n_cases = ctx.pick(10000, 200000);
     for idx in 0..n_cases {
         if !ctx.mine(idx) {
             continue;
